@@ -19,7 +19,7 @@ NS == Len(Strings)
 
 Fns == <<
   "parse_tls_record_header", "parse_tls_plaintext", "parse_tls_encrypted", "parse_tls_raw_record", "tls_parser", "tls_parser_many",
-  "parse_tls_record_with_header", "two_step", "parse_tls_message_changecipherspec", "parse_tls_message_alert",
+  "parse_tls_record_with_header", "two_step", "fresh_parse_record", "parse_tls_message_changecipherspec", "parse_tls_message_alert",
   "parse_tls_message_applicationdata", "parse_tls_message_heartbeat", "parse_tls_message_handshake",
   "parse_tls_handshake_msg_hello_request", "parse_tls_handshake_client_hello", "parse_tls_handshake_msg_client_hello",
   "parse_tls_handshake_server_hello", "parse_tls_handshake_msg_server_hello", "parse_tls_handshake_msg_newsessionticket",
